@@ -45,13 +45,19 @@ def generate(c):
     return paths, scns, r
 
 
+def nodes(a):
+    return 1 + sum(nodes(a[k]) for k in ("a", "b") if k in a)
+
+
 def write_chunks(c, paths, scns, nchunks):
     """Scenario files: every chunk is a sequence of reset-delimited groups (one family each)."""
     groups = []   # (fam, pathset, [records])
-    structp = "struct"
-    for fam in sorted(scns):
-        ps = {"pred": "pred", "struct": structp, "acl": "acl", "pol": "struct"}[fam]
-        recs = scns[fam]
+    work = [(fam, {"pred": "pred", "struct": "struct", "acl": "acl", "pol": "struct"}[fam], scns[fam])
+            for fam in sorted(scns)]
+    if c.thorough:
+        # the small expressions also on all paths of up to 4 hops
+        work.append(("struct", "struct4", [a for a in scns.get("struct", []) if nodes(a) <= 3]))
+    for fam, ps, recs in work:
         step = 150 if fam != "pred" else 400
         for i in range(0, len(recs), step):
             groups.append((fam, ps, recs[i:i + step]))
